@@ -314,7 +314,7 @@ def check(ctx, case):
 
 def shard_main(ctx):
     from hypothesis import given
-    n = {"quick": 350, "thorough": 8000}[ctx.tier]
+    n = {"quick": 1800, "thorough": 20000}[ctx.tier]
 
     @given(cases())
     def test(case):
